@@ -2859,10 +2859,13 @@ impl Context {
                 self.get_ctxdata().next_state_offset = Some(skeleton.total_size());
                 let (retv, _t, states) = self.eval_expr(*expr);
 
+                // The feed cell is read (`GetState`) before any cursor move of the body, i.e. it is
+                // the FIRST cell of this function's state storage: list it first so that the
+                // published layout matches the run-time accesses.
                 (
                     Arc::new(Value::State(retv)),
                     ty,
-                    [states, vec![skeleton]].concat(),
+                    [vec![skeleton], states].concat(),
                 )
             }
             Expr::Let(pat, body, then) => {
